@@ -148,6 +148,15 @@ def sort_set_values(set_values):
 
 
 @customize_repr
+def _(value: float):
+    if value in (float("inf"), float("-inf")):
+        # `inf` and `-inf` are no literals
+        return f'float("{real_repr(value)}")'
+
+    return real_repr(value)
+
+
+@customize_repr
 def _(value: set):
     if len(value) == 0:
         return "set()"
